@@ -1,2 +1,13 @@
-import OSProofs.Props.C05
-#print axioms OS.C05_same_direction
+import OSProofs.Props.C01
+#print axioms OS.C01_PL
+#print axioms OS.C01_BTF
+#print axioms OS.C01_BTP
+#print axioms OS.C01_TMF
+#print axioms OS.C01_TMP
+#print axioms OS.C01_omegaDelta
+#print axioms OS.C01_player
+#print axioms OS.C01_teamAgg
+#print axioms OS.C01_inflate_sq
+#print axioms OS.C01_teamAgg_inflate
+#print axioms OS.C01_compute
+#print axioms OS.C01_rate_omitted
